@@ -48,8 +48,14 @@ class Worker:
         self.i, self.spec, self.runlog, self.sch, self.kind = i, spec, runlog, sch, kind
 
     def run(self, result):
-        import testtools
         self.runlog.append((self.i, self.sch.current_name()))
+        try:
+            self._run(result)
+        finally:
+            self.runlog.append((self.i, "finished", None, None))
+
+    def _run(self, result):
+        import testtools
         n = self.spec["tests"]
         for j in range(n):
             if getattr(result, "shouldStop", False):
@@ -70,6 +76,11 @@ class Worker:
         return id(self)
 
 
+def snap_finished(sch, runlog):
+    """Workers that had already finished their run() when run() of the suite was aborted."""
+    return {"finished": sorted(r[0] for r in runlog if len(r) == 4), "runlog_len": len(runlog)}
+
+
 def execute(case, chooser):
     import testtools
     import testtools.testsuite as ts
@@ -78,7 +89,8 @@ def execute(case, chooser):
     abort = case.get("abort")
     sch = S.Sched(chooser)
     if abort and abort[0] == "interrupt":
-        sch.interrupt = {"task": "main", "at": abort[1], "exc": KeyboardInterrupt("injected")}
+        sch.interrupt = {"task": "main", "at": abort[1], "exc": KeyboardInterrupt("injected"),
+                         "on_fire": lambda: setattr(sch, "abort_runlog_len", len(runlog))}
     shim = S.ThreadingShim(sch)
     runlog = []
     created = []   # per-worker result objects in creation order
@@ -89,7 +101,7 @@ def execute(case, chooser):
         if name in ("status",) or name in recorders.OUTCOMES or name in ("startTest", "stopTest"):
             counts["events"] += 1
             if abort and abort[0] == "result" and counts["events"] == abort[1]:
-                sch.abort_snapshot = {t.name: t.done for t in sch.tasks}
+                sch.abort_snapshot = snap_finished(sch, runlog)
                 raise Marker("caller's result raises at event %d" % abort[1])
     log = recorders.Log(hook)
     orig_add = log.add
@@ -126,7 +138,7 @@ def execute(case, chooser):
     def make_tests_cts(suite):
         for i, w in enumerate(workers):
             if abort and abort[0] == "make_tests" and i == abort[1]:
-                sch.abort_snapshot = {t.name: t.done for t in sch.tasks}
+                sch.abort_snapshot = snap_finished(sch, runlog)
                 raise Marker("make_tests fails after %d" % i)
             yielded.append(i)
             yield w
@@ -134,7 +146,7 @@ def execute(case, chooser):
     def make_tests_stream():
         for i, w in enumerate(workers):
             if abort and abort[0] == "make_tests" and i == abort[1]:
-                sch.abort_snapshot = {t.name: t.done for t in sch.tasks}
+                sch.abort_snapshot = snap_finished(sch, runlog)
                 raise Marker("make_tests fails after %d" % i)
             yielded.append(i)
             yield (w, "r%d" % i)
@@ -151,7 +163,7 @@ def execute(case, chooser):
             if abort and abort[0] == "wrap":
                 def wrap(result, n):
                     if n == abort[1]:
-                        sch.abort_snapshot = {t.name: t.done for t in sch.tasks}
+                        sch.abort_snapshot = snap_finished(sch, runlog)
                         raise Marker("wrap_result fails for %d" % n)
                     return result
             suite = testtools.ConcurrentTestSuite(unittest.TestSuite(), make_tests_cts, wrap_result=wrap)
@@ -185,10 +197,14 @@ def check(ctx, case, sch, log, runlog, created, exc, yielded, shim, target, deta
                   "abort.exception-propagates", lambda: {"exc": repr(exc), "abort": abort, **detail()})
         # every worker whose thread had been started is told to stop
         told = []
-        snap = getattr(sch, "abort_snapshot", {})
-        for t, res in zip(shim.threads, created):
-            if not t.task.started or snap.get(t.name, False):
-                continue  # never started, or already finished when run() was aborted
+        snap = getattr(sch, "abort_snapshot", None)
+        if snap is None or "finished" not in snap:
+            # interrupt injected by the scheduler: reconstruct from the run log at that moment
+            snap = {"finished": sorted(r[0] for r in runlog[:getattr(sch, "abort_runlog_len", len(runlog))]
+                                       if len(r) == 4)}
+        for wi, (t, res) in enumerate(zip(shim.threads, created)):
+            if not t.task.started or wi in snap["finished"]:
+                continue  # never started, or its run() had already finished when run() was aborted
             if kind == "cts":
                 told.append((t.name, res.stop_calls >= 1))
             else:
